@@ -583,6 +583,7 @@ impl NHistory {
         if was_connected && now_state == Some(0) && prefix_info(&data).map(|(ty, _)| ty != 6).unwrap_or(true) {
             self.violate("C18", format!("a connected client {} was disconnected by a datagram of type {:?} that is not a disconnect packet", k, prefix_info(&data).map(|x| x.0)));
             self.violate("C07", format!("a datagram of type {:?} ended the session of connected client {}", prefix_info(&data).map(|x| x.0), k));
+            self.violate("C20", format!("the session of connected client {} ended on the client side only, by a datagram of type {:?}: the server keeps it until its timeout", k, prefix_info(&data).map(|x| x.0)));
         }
         let surfaced = match obs.as_l() {
             Some([Tree::N(1), Tree::B(p)]) => Some(p.clone()),
@@ -824,6 +825,7 @@ impl NHistory {
                         if let (false, true, Some(last_any)) = (disconnected, c.timeout_seconds > 0, last_any) {
                             if now.saturating_sub(last_any) > limit {
                                 self.violate("C18", format!("client {} was kept by update_client although no datagram from its address reached the server for {:?}, timeout is {:?}", id, now.saturating_sub(last_any), limit));
+                                self.violate("C20", format!("the session of client {} outlives its timeout at the server ({:?} without any datagram from its address, timeout {:?}): a vanished client is never reported disconnected", id, now.saturating_sub(last_any), limit));
                             }
                         }
                         // the same against the monitor's own clock: the handshake's completion and every surfaced payload are arrivals
